@@ -114,7 +114,8 @@ def gen_plan(wl, fr, idx):
     clean = wl.random() < 0.4
     interrupts = (not clean) and wl.random() < 0.5
     plan = {'kind': kind, 'clean': clean, 'faults': {'interrupts': interrupts},
-            'read_all_columns': wl.random() < 0.6}
+            'read_all_columns': wl.random() < 0.6,
+            'granularity': 'line' if interrupts and wl.random() < 0.5 else 'seam'}
     ctor = _gen_ctor(wl)
     plan['ctor'] = ctor
     cur = ref.object_settings(ctor)
@@ -402,7 +403,9 @@ def execute(plan, tape):
     sim = Sim(plan.get('sim') or {'mode': 'fifo'}, tape)
     ctl = seams.Controller(tape, sim)
     interrupts = plan.get('faults', {}).get('interrupts')
-    with quiet(), pristine.active(), Installed(sim), seams.activate(ctl):
+    from .core import REPO
+    line_root = REPO if plan.get('granularity') == 'line' else None
+    with quiet(), pristine.active(), Installed(sim), seams.activate(ctl, line_root):
         if plan['kind'] == 'single':
             _run_single(plan, tape, res, hist, ctl, interrupts)
         else:
@@ -413,6 +416,9 @@ def execute(plan, tape):
     res.stats['pool_seam_hits'] += sim.seam_hits
     res.stats.update(sim.stats)
     res.stats['kind.' + plan['kind']] += 1
+    res.stats['granularity.' + plan.get('granularity', 'seam')] += 1
+    if ctl.tracer is not None:
+        res.stats['line_events'] += ctl.tracer.lines
     res.steps = sim.steps + len(hist)
     res.sim_time = sum(sim.makespans) if sim.mode == 'timed' else 0.0
     res.inter_sig = digest_of(plan['kind'], hist)
@@ -465,7 +471,7 @@ def _run_single(plan, tape, res, hist, ctl, interrupts):
         kind = op['op']
         res.arm_at = None
         if interrupts and kind in ('fit', 'recompute') and tape.chance(1, 4, 'interrupt?'):
-            res.arm_at = 1 + tape.choose(40, 'interrupt-at')
+            res.arm_at = 1 + tape.choose(600 if plan.get('granularity') == 'line' else 40, 'interrupt-at')
         try:
             if kind == 'construct':
                 model = Model(op['ctor'])
